@@ -512,7 +512,7 @@ class Array:
             v = self._dtype.read_fn(self.data, start=self._dtype.bitlength * i)
             try:
                 new_data.append(new_array._create_element(partial_op(v)))
-            except (CreationError, ZeroDivisionError, ValueError) as e:
+            except (CreationError, ZeroDivisionError, OverflowError, ValueError) as e:
                 if failures == 0:
                     msg = str(e)
                     index = i
@@ -533,7 +533,7 @@ class Array:
             v = self._dtype.read_fn(self.data, start=self._dtype.bitlength * i)
             try:
                 new_data.append(self._create_element(op(v, value)))
-            except (CreationError, ZeroDivisionError, ValueError) as e:
+            except (CreationError, ZeroDivisionError, OverflowError, ValueError) as e:
                 if failures == 0:
                     msg = str(e)
                     index = i
@@ -580,7 +580,7 @@ class Array:
             b = other._dtype.read_fn(other.data, start=other._dtype.bitlength * i)
             try:
                 new_data.append(new_array._create_element(op(a, b)))
-            except (CreationError, ValueError, ZeroDivisionError) as e:
+            except (CreationError, ValueError, ZeroDivisionError, OverflowError) as e:
                 if failures == 0:
                     msg = str(e)
                     index = i
